@@ -282,6 +282,33 @@ def w_related(part):
     return acc.res()
 
 
+def w_forms(part):
+    """argument forms: every callable must answer a frame the same way when the arguments are passed by the names its
+    own signature advertises, and when the frame is a numpy.str_ (what iterating a numpy array of hex strings yields)
+    instead of a plain str."""
+    from engine.util import kw_call, np_str
+    global TABLE
+    if TABLE is None:
+        TABLE = {t[0]: t for t in table()}
+    acc = Acc()
+    frames = related_frames() + [F.short_ap(4, 0x0001838, 0x4840D6), F.short_ap(5, 0x7FFFFFF, 0x4840D6), F.df11(0x4840D6, 5, 0),
+                                 F.long_ap(16, 0x0001838, 0x12345678, 0x4840D6), F.es(F.me(29, [(6, 2, 1)]), 0x4840D6, 5, 18), "f" * 28, "0" * 14]
+    names = [(name, extra) for name, f, extras, kind, guard in table() for extra in extras[:1] if name != "tell"]
+    for name, extra in names[part::4]:
+        f = TABLE[name][1]
+        for m in frames:
+            base = call(f, m, *extra)
+            acc.n += 2
+            k = kw_call(f, m, *extra)
+            if k is not None and repr(k) != repr(base):
+                acc.bad("%s:keyword_call_differs_from_positional_call" % name, {"kind": "forms", "name": name, "extra": list(extra), "msg": m, "form": "keyword"})
+            r = call(f, np_str(m), *extra)
+            if repr(r) != repr(base):
+                acc.bad("%s:numpy_str_frame_differs_from_str_frame" % name, {"kind": "forms", "name": name, "extra": list(extra), "msg": m, "form": "numpy.str_"})
+        acc.out.add(("forms", name))
+    return acc.res()
+
+
 def w_parity(df):
     """the parity / PI field as an input in its own right: for one downlink format, both frame lengths and two
     payloads, the last 24 bits are set so that the checksum of the frame (= overlaid address or interrogator code) takes
@@ -466,18 +493,22 @@ def w_any(t):
         return w_parity(t[1])
     if t[0] == "s":
         return w_related(t[1])
+    if t[0] == "a":
+        return w_forms(t[1])
     return w_dispatch(None) if t[0] == "d" else w_frames(t[1])
 
 
 def run(ctx):
     import random
     rng = random.Random(ctx.seed)
-    pays = [0, (1 << 48) - 1, 0x555555555555, 0xAAAAAAAAAAAA, rng.getrandbits(48), rng.getrandbits(48)]
+    pays = [0, (1 << 48) - 1, 0x555555555555, 0xAAAAAAAAAAAA, rng.getrandbits(48), rng.getrandbits(48),
+            0x111111111111, 0x101010101010, 0x010101010101, 0x999999999999]     # hex digits all 0/1, all decimal (content sniffing)
     tasks = [("d", None), ("p", None)] + [("r", r) for r in ("BDS10", "BDS17", "BDS20", "BDS30", "BDS40", "BDS44", "BDS45", "BDS50", "BDS60")]
     for df in range(32):
         tasks.append(("f", (0, [df], pays, ctx.thorough)))
     tasks += [("l", (df, tc)) for df in ((17, 18) if ctx.thorough else (17,)) for tc in range(32)]
     tasks += [("s", part) for part in range(8)]
+    tasks += [("a", part) for part in range(4)]
     tasks += [("c", df) for df in ((0, 4, 5, 11, 16, 17, 18, 20, 21, 24) if not ctx.thorough else range(32))]
     ctx.pmap(w_any, tasks)
     ctx.cov["functions"] = len(table())
@@ -494,6 +525,11 @@ def replay(case):
         return [("adsb.%s:%s:breakpoint_latitude" % (case["fn"], r[1] if r[0] == "exc" else "malformed_result"), case)] if bad else []
     if case["kind"] == "again":
         return stateless(case["msg"])
+    if case["kind"] == "forms":
+        out = []
+        for part in range(4):
+            out += [(s_, c_) for s_, c_ in w_forms(part)["viols"] if c_.get("name") == case["name"] and c_.get("form") == case["form"]]
+        return out
     if case["kind"] == "related":
         out = []
         for part in range(8):
